@@ -29,6 +29,9 @@ CHECKS = {
  'C08': dict(cat='model_checking', tech='documents generated from the reference model (z3 models of lexical spaces and solver-checked child words) round-tripped through the real API, writer and parser',
              text='Per element class the minimal valid document, child words, every representative value of the content type and every declared attribute with representative values are built through the API, written, parsed back and re-serialised twice; infoset equality up to decimal spelling, byte-identical second trip, integer types preserved.',
              note='bounded: one attribute at a time, words <= 3/4, minimal children; values are solver-chosen representatives (bounds, interior, literals, pattern models, whitespace/markup strings), not all values', ref='3 C08'),
+ 'C09': dict(cat='model_checking', tech='documents written as XML text from the reference model alone (solver-checked words, canonical z3 models of lexical spaces, namespaced attribute forms) parsed by the real parser; one z3-chosen edit per document for the no-silent-loss half (incl. models of L(float()) minus xs:decimal)',
+             text='Positive half: every generated schema-valid document must parse and re-serialise to the same infoset. Negative half: after one edit (undeclared child / attribute, character data where none is allowed, tail text, numeric look-alikes accepted by float()/int() but not by the schema, a comment) the parser must raise or reproduce every element, attribute and text value.',
+             note='bounded like C08; float()/int() grammar modelled as a regular expression, every model validated against the builtin; real-world exports are not part of the solver-driven generation', ref='3 C09'),
  'C10': dict(cat='model_checking', tech='symbolic histories on the real code; every raising call compared with the pre-state and with a twin history without the failed calls (snapshot + acceptance vector)',
              text='Bounded exploration of histories in which calls fail; state before/after each failed call on the same object and end state versus a twin element that never saw the failed calls.',
              note=F1NOTE, ref='3 C10'),
@@ -38,12 +41,18 @@ CHECKS = {
  'C12': dict(cat='model_checking', tech='multisets with a unique arrangement (two z3 arrangement queries) fed in all permutations to the real add_child; Parikh LIA for still-compatible children',
              text='(a) For multisets whose schema-valid arrangement is unique (decided by z3), every distinguishable insertion order must be accepted and serialise in that arrangement with same-named children in insertion order; (b) a child whose addition keeps the multiset completable (Parikh formula) must not be rejected.',
              note=F1NOTE, ref='3 C12'),
+ 'C13': dict(cat='model_checking', tech='per class in a fresh process: solver-enumerated histories and z3-chosen value / attribute probes on fresh instances recorded pristine, replayed after a battery of work on other instances; live instance and a digest of process-wide tables compared',
+             text='Behaviour of fresh instances (snapshots, next-child acceptance, accept/reject and emitted text of valid and invalid values) must be the same in a pristine process and after other instances of the same, related and unrelated classes, deep copies, failing operations and intelligent-choice serialisation; a live instance must not move; class-level tables must be stable after warm-up.',
+             note='the disturbance is a fixed battery (exhaustive=false); histories <= 2 operations', ref='3 C13'),
  'C14': dict(cat='model_checking', tech='generated element trees (C08 generator) with one post-construction edit, deep-copied and compared; one further edit for independence',
              text='Per element class: document variants x one post-construction edit (attribute set later / overwritten / removed, value changed, xsd_check off, child added / removed) -> deepcopy -> same serialisation, original unchanged, xsd_check kept, then independence under one more edit of either tree.',
              note='finite enumeration of edits; shapes and values from the reference model via z3; bounded to single edits', ref='3 C14'),
  'C15': dict(cat='model_checking', tech='differential symbolic exploration: every explored history is executed with the xml_* shortcuts and again with the explicit API calls they abbreviate',
              text='Breadth-first exploration of reachable states (plus a pass starting from valid words with repeated names); each history containing a shortcut is re-executed through find_child / replace_child / add_child / remove / value_; per-step outcomes and the final serialisation (children carry serial marks) must agree; shortcut reads must equal find_child / the stored attribute.',
              note=F1NOTE, ref='3 C15'),
+ 'C16': dict(cat='model_checking', tech='(i) strings over classes of XML characters in every free-text and free-string-attribute position recovered by a standard XML parser; (ii) symbolic exploration with to_string calls interleaved, compared with the twin history without the calls; (iii) subtree vs slice of the parent',
+             text='Escaping itself is xml.etree code: part (i) checks with concrete representatives that the library hands values to the serialiser unmodified; parts (ii) and (iii) use the F1 exploration: a repeated to_string returns the same text, a history with to_string calls behaves like the one without them, and a subtree serialises alone as inside its parent.',
+             note='part (i) is representative strings, not solver variables (stated in DESIGN.md as the weakest use of the technique); ' + F1NOTE, ref='3 C16'),
  'C17': dict(cat='model_checking', tech='environment harness: open() as seen from the library replaced by an in-memory file system; default text encoding, code point, fault position, prior file state and intelligent_choice are z3-enumerated decisions; atomicity asserted by a z3 query over a symbolic prior content',
              text='write(), parse_musicxml() and the import-time block of generate_classes/utils.py are executed under every combination of locale encoding (4), code point class (5), fault position (each node of a small score made invalid in turn) and prior destination state (7); a raising write must leave the file as it was for every prior content, a returning one must leave exactly declaration + to_string() in UTF-8.',
              note='open() stub contract (w truncates at open; no encoding= means locale encoding); codecs executed; ASCII/UTF-8 replayed in real subprocesses, Latin-1/cp1252 only under the stub', ref='3 C17'),
